@@ -53,7 +53,8 @@ def polylog_ref(alpha, z, M=4000):
 class C19(Prop):
     pid = "C19"
     rule = ("parameter grids: a in [0.05, 5], mean in [0.1, 30], alpha in [2, 6] (integers and non-integers), kappa in [0.5, 50]; k over the "
-            "support up to 60; values compared with a 60-digit decimal evaluation of the named formulas whose normalisers are bracketed "
+            "support up to 60, plus lists of extreme parameters walked deterministically; degrees also as NumPy integers; a second function swept "
+            "downwards from k = 170 must repeat the values bit for bit; values compared with a 60-digit decimal evaluation of the named formulas whose normalisers are bracketed "
             "rigorously; for integer alpha the truncated normaliser and its stopping index are compared with the executable Lean model "
             "(exact rationals); non-trivial = every case; distinct = distinct (family, parameters)")
     assumptions = ["floating-point rounding and numpy.exp are outside the model: values are compared numerically (relative 1e-9 plus the proved "
